@@ -192,7 +192,7 @@ func TestSkeletons(t *testing.T) {
 		"Body.decode": "(Skel.seqL [ (.ifv (.ge 6) (.prim .cstr) (.prim .str) ), " +
 			"(.array (.cnt .i32) true (Skel.seqL [ (.prim .i32), (.ifv (.gt 2) (.prim .i64) .skip ) ]) ), " +
 			"(.array (.cnt .i32) true (.prim .str) ) ])",
-		"Early.encode": "(Skel.seqL [ (.array (.cnt .i32) false (.prim .i32) ), (.lit .bool) ])",
+		"Early.encode": "(Skel.seqL [ (.array (.cnt .i32) false (.prim .i32) ), (.prim .bool) ])",
 	}
 	for k, w := range want {
 		if got := leanOf(t, g, k); got != w {
